@@ -23,6 +23,12 @@ struct GNode // guest image (32-bit long; pointer representation SIM_PTR_T)
 };
 static_assert(sizeof(GNode) == (sizeof(SIM_PTR_T) == 4 ? 40 : 64));
 
+struct SimGrid // a nested fixed array (same layout in both ABIs)
+{
+  int m[2][4];
+  short tail;
+};
+
 #if defined(__clang__)
 #  pragma clang diagnostic ignored "-Wgnu-zero-variadic-macro-arguments"
 #endif
@@ -33,6 +39,11 @@ static_assert(sizeof(GNode) == (sizeof(SIM_PTR_T) == 4 ? 40 : 64));
   f(char[8], name, FIELD_NORMAL, ##__VA_ARGS__) g()                            \
   f(int* [3], ptrs, FIELD_NORMAL, ##__VA_ARGS__) g()                           \
   f(unsigned long long, big, FIELD_NORMAL, ##__VA_ARGS__) g()
-#define sandbox_fields_reflection_simlib_allClasses(f, ...) f(SimNode, simlib, ##__VA_ARGS__)
+#define sandbox_fields_reflection_simlib_class_SimGrid(f, g, ...)              \
+  f(int[2][4], m, FIELD_NORMAL, ##__VA_ARGS__) g()                             \
+  f(short, tail, FIELD_NORMAL, ##__VA_ARGS__) g()
+#define sandbox_fields_reflection_simlib_allClasses(f, ...)                    \
+  f(SimNode, simlib, ##__VA_ARGS__)                                            \
+  f(SimGrid, simlib, ##__VA_ARGS__)
 rlbox_load_structs_from_library(simlib);
 
